@@ -3,6 +3,7 @@ from registry_api import T
 
 FAMILIES = {
     "search": dict(src="search.cpp"),
+    "compare": dict(src="compare.cpp"),
 }
 
 PROPS = {
@@ -24,8 +25,49 @@ PROPS = {
     ),
 }
 
+PROPS["C06"] = dict(
+    family="compare",
+    theorems=T("C06", "sign_compare_eq_lex", "sign_compare_eq_lex_wchar", "wchar_high_units_signed_witness", "string_compare_eq_lex",
+               "lex_is_textbook", "antisymm", "antisymm_buffer", "trans", "trans_buffer", "zero_iff_eq", "zero_iff_eq_buffer",
+               "ci_zero_iff_fold_eq", "ci_preorder", "ops_agree", "operators_meaning", "compare_n_eq_take", "hash_congr", "hash_i_congr",
+               "case_map_only_ascii", "reads_only_common_prefix", "huge_length_difference", "narrowed_difference_was_wrong",
+               "narrowed_difference_ok_when_small"),
+    rule="exhaustive: all ordered pairs of byte strings over {00,41,61,5A,7A,7F,80,FF} up to length 3 and (thorough) over {00,41,61,80,FF} up to "
+         "length 4 x prefix limits n in {none,0..5,SIZE_MAX} through every ST::string overload (compare / compare_n / compare_i / compare_ni with "
+         "string, const char*, const char8_t*, null; ==, !=, <, less_i, equal_i, hash/hash_i equality), the same over the fold edges {@ A Z [ ` a z {}; all triples "
+         "up to length 2; buffers of char/char16_t/char32_t/wchar_t over critical units incl. 7FFF/8000/FFFF and 7FFFFFFF/80000000/FFFFFFFF; length-only cases "
+         "{0,1,2^31-1,2^31,2^31+1,2^32,2^32+1,2^63,SIZE_MAX-1,SIZE_MAX}^2 x n through the static (ptr,len) compare of all four element types (made only when at "
+         "most one unit is compared); a real ST::string of 2^31 (thorough: 2^32) bytes against the empty string; seeded random long operands with a common prefix. "
+         "non-trivial = both operands non-empty",
+    exhaustive={"quick": False, "thorough": False},
+    assumptions=["bytes are 0..255; ST::string carrying arbitrary bytes is built with assume_valid",
+                 "const char* / const char_T* overloads receive a NUL-terminated copy: they see the units before the first zero unit",
+                 "char_traits<wchar_t>::compare is wmemcmp, which orders by the signed 32-bit value on this platform: 'unsigned' order is claimed for wchar_t "
+                 "buffers whose units are below 2^31 (every code point); for larger units the judge accepts the platform order"],
+)
+
 MANIFEST_TEXT = {
-    "C07": dict(text="(under construction) find / find_last / contains / starts_with / ends_with against least / greatest occurrence",
-                design_ref="DESIGN.md section 3, C07", note="see evidence",
-                technique="Lean 4 proof over a hand model + exhaustive short-string differential correspondence under ASan/UBSan"),
+    "C06": dict(
+        text="Theorems (Lean kernel, arbitrary lists so every length and every length difference, all byte values): case-sensitive compare of strings and of "
+             "char/char16_t/char32_t buffers equals lexicographic three-way comparison by unsigned unit value, a proper prefix first (wchar_t: below 2^31; above, the "
+             "platform's wmemcmp is signed - stated as a witness); antisymmetry and transitivity for both case modes; zero iff equal resp. equal after folding A-Z; "
+             "==, !=, <, compare_n (= compare of the first n units, every n), const char* / null / buffer / ST::string overloads, compare_i, less_i, equal_i agree; "
+             "equal (fold-equal) strings have equal hash (hash_i); to_upper/to_lower change only ASCII letters, by 32. The size-difference narrowing of the pinned "
+             "tree (compare(\"\",0,p,2^32) == 0) was found by this check, repaired, and the theorem is unconditional on the repaired code.",
+        design_ref="DESIGN.md section 3, C06",
+        note="Trusted: Lean kernel + 3 standard axioms, Spec/Compare.lean (LexLt / lexSign) as the meaning of 'lexicographic order', memcmp/wmemcmp/char_traits as "
+             "modelled, the compare harness (ASan/UBSan). Only the sign of compare is observed. Length differences >= 2^31 are exercised through the static "
+             "(ptr,len) form with one readable unit per side and through a real 2 GiB (thorough: 4 GiB) unwritten string against the empty string.",
+        technique="Lean 4 proof (refinement of the compare model to a lexicographic Spec) + exhaustive short-operand differential correspondence over every overload"),
+    "C07": dict(
+        text="Theorems (Lean kernel, arbitrary haystacks/needles over all unit values incl. NUL, every start/limit in Nat so SIZE_MAX included, both case modes): "
+             "find returns the least index >= start where the needle's text occurs and -1 exactly when there is none, the text is empty/null or start >= size; "
+             "find_last the greatest occurrence lying entirely before the limit; contains <-> find succeeds <-> an occurrence exists; starts_with/ends_with <-> "
+             "prefix/suffix (trivially for empty text); case-insensitive search = case-sensitive search on ASCII-folded operands; char, const char* (bytes before "
+             "the first NUL), (ptr,len) and ST::string needles give the same answer. The model (first-unit scan + compare loops, the end cut-off, repeated forward "
+             "search in find_last, every guard) is tied to the code by exhaustive short-string execution of every overload.",
+        design_ref="DESIGN.md section 3, C07",
+        note="Trusted: Lean kernel + 3 standard axioms, Spec/Search.lean (occursAt / IsFind / IsFindLast) as the meaning of 'first/last occurrence', "
+             "memchr/strlen/memcmp as modelled, the search harness (ASan/UBSan, needles in exact-size heap blocks). const char* overloads see the text before the first NUL.",
+        technique="Lean 4 proof (loop invariants for the scanning loops) + exhaustive short-string differential correspondence over every overload"),
 }
